@@ -211,6 +211,10 @@ const (
 	verifReqKinds
 )
 
+// verifConcreteUnknown makes the unknown-method request use concrete names (set by
+// harnesses whose transport base64-encodes the frame).
+var verifConcreteUnknown bool
+
 // verifRequestFrame builds a request frame (without the 4-byte prefix) of the given kind.
 func verifRequestFrame(fctx FContext, kind int, arg string) []byte {
 	c := FStandardClient{protocolFactory: NewFProtocolFactory(thrift.NewTBinaryProtocolFactoryDefault())}
@@ -219,8 +223,12 @@ func verifRequestFrame(fctx FContext, kind int, arg string) []byte {
 	var body thrift.TStruct = &verifMsg{a: arg, b: "y", c: "z"}
 	switch kind {
 	case verifReqUnknownMethod:
-		method = verifStr(1 + verifChoice(2))
-		verifAssume(method != "ping" && method != "fire")
+		if verifConcreteUnknown {
+			method = []string{"pin", "pingg", "Ping"}[verifChoice(3)]
+		} else {
+			method = verifStr(1 + verifChoice(2))
+			verifAssume(method != "ping" && method != "fire")
+		}
 	case verifReqWrongTypeArgs:
 		s := "ok"
 		body = &verifPingResultI32{v: 7, s: &s}
